@@ -228,6 +228,18 @@ func (r *Run) Absorb(name string, st *gosym.ExploreStats, bounds string) {
 		}
 		fmt.Printf("note: harness %s: %d paths ended in an error of the executor or the harness (inconclusive): %s\n", name, n, firstLine(d))
 	}
+	if n := st.Inconclusive["unsupported"]; n > 0 {
+		// the real code left what the executor can interpret: these paths are decided by native probes where the check
+		// has them, and by nothing otherwise - say so instead of passing quietly
+		d := ""
+		for _, x := range st.Details {
+			if strings.HasPrefix(x, "unsupported") {
+				d = x
+				break
+			}
+		}
+		fmt.Printf("note: harness %s: %d of %d paths left the part of Go the executor interprets (%s); they count as not explored unless a native probe decided them\n", name, n, st.Paths, firstLine(d))
+	}
 	if st.Truncated {
 		fmt.Printf("note: harness %s: exploration truncated at the path budget after %d paths\n", name, st.Paths)
 	}
